@@ -155,7 +155,12 @@ class Enum:
                     elif a.get("k") == "Path" and a.get("id") in self.lits:
                         ev.append(("push", self.lits[a["id"]], e["sp"]))
                     elif a.get("k") == "Lit":
-                        ev.append(("push", a["v"], e["sp"]))
+                        v = a["v"]
+                        if isinstance(v, str) and len(v) > 1 and name == "String::push_str" and v.strip(" ") != "":
+                            for ch_ in v:            # push_str(" {") appends ' ' and then '{' (runs of the indentation unit stay one piece)
+                                ev.append(("push", ch_, e["sp"]))
+                        else:
+                            ev.append(("push", v, e["sp"]))
                     else:
                         ev.append(("push", None, e["sp"], show(self.N.term(a))))
                 else:
@@ -431,7 +436,7 @@ def check(ctx):
                         why.append("the closing bracket is written before the dedented line break")
             if label == "'{'":
                 pc = [i for i, e in enumerate(path) if e[0] == "push"]
-                seqp = [e[1] for e in path if e[0] == "push"]
+                seqp = ["CH" if e[1] == "{" else e[1] for e in path if e[0] == "push"]        # in this arm the literal '{' is the loop character
                 if seqp[:3] != [" ", "CH", "\n"]:
                     why.append("`{` must be written as ' ', '{', line break; found %s" % seqp)
             ctx.expect(not why, "C15.7", key + "/level", site(arm), "indent level changes %s exactly where a multi-line scope opens/closes, before the line break" % exp["delta"],
@@ -500,8 +505,12 @@ def totality(ctx, fn, level_id):
     edges, table = k10.fnptr_bindings(P, (CR,))
     g = k10.call_graph(P, (CR,), edges)
     reach = k10.reachable(g, [fn["path"]])
-    ctx.expect(sorted(reach) == sorted(names), "C15.4", "reach", fn["sp"], "the formatter calls only its own nested helpers %s" % [cshort(n) for n in names],
+    module = fn["path"].rsplit("::", 1)[0] + "::"
+    helpers = [r for r in reach if r != fn["path"]]
+    ok = all(r.startswith(module) and not (P.body(r) or {}).get("pub") for r in helpers)
+    ctx.expect(ok, "C15.4", "reach", fn["sp"], "the formatter calls only private helpers of its own module %s (all of them analysed below)" % sorted(cshort(n) for n in helpers),
                "formatter reaches %s" % sorted(cshort(r) for r in reach))
+    names = sorted(set(names) | set(reach))
     rec = [c for c in k10.sccs(g) if any(m in reach for m in c)]
     ctx.expect(not rec, "C15.4", "no-recursion", fn["sp"], "no recursion in the formatter", "recursive cycle: %s" % rec)
     inv = [s for s in k10.inventory(P, (CR,)) if s.owner in reach]
